@@ -110,6 +110,9 @@ ARGS = 'StreamArgs { id: id, range: range, filters: filters@ }'
 # call sites take the concrete resolver (units/guard: a generic `R: Resolve` bound would make the traits cyclic for Verus)
 RSIG = {'where': 'sig', 'rule': 'R2', 'regex': r'fn (\w+)\(&self, resolve: &impl Resolve\)',
         'replace': r'fn \1<B, OC: Cache<ObjVal, ObjOrigin>, SC: Cache<StrVal, StreamArgs>, L: Log>(&self, resolve: &mut StorageResolver<B, OC, SC, L>)'}
+# same for `fn f(&self, <other params>, resolve: &impl Resolve)`
+RSIG2 = {'where': 'sig', 'rule': 'R2', 'regex': r'fn (\w+)\(&self, ([^()]*?), resolve: &impl Resolve\)',
+         'replace': r'fn \1<B, OC: Cache<ObjVal, ObjOrigin>, SC: Cache<StrVal, StreamArgs>, L: Log>(&self, \2, resolve: &mut StorageResolver<B, OC, SC, L>)'}
 RDOC = 'old(resolve).storage.doc'
 RFRAME = ('frame', 'final(resolve).chain@ == old(resolve).chain@ && final(resolve).storage.doc == old(resolve).storage.doc')
 RKEPT = ('coherence_kept', 'coherent(final(resolve).storage)')
@@ -154,11 +157,21 @@ UNIT = {
   'StorageResolver::get_data_or_decode': {'kind': 'fn', 'file': FILE, 'container': IMPL_RES, 'name': 'get_data_or_decode', 'props': PR,
       # the arguments are those of a stream object of this document, the filters a prefix of its filter list: every call
       # site hands over the fields of a Stream value read from the document (Stream::data, ImageXObject::raw_image_data below)
-      'requires': ['old(self).wf()', 'stream_args_ok(old(self).storage.doc, %s)' % ARGS],
+      # The stream cache is keyed by (object number, number of filters) -- NOT by the byte range. So the precondition is part of
+      # the cache's soundness: `range` must be the WHOLE data range of object `id` (a sub-range would be stored under the key of
+      # the whole stream and poison every later full read), `id` its id, `filters` a prefix of its filter list.
+      # Labelled: a call site that breaks one clause is reported under that label (the three together are stream_args_ok).
+      'requires': ['old(self).wf()',
+                   ('args_id_is_the_objects_own_id', 'id == stream_id(old(self).storage.doc, id.id)'),
+                   ('args_range_is_the_objects_whole_data_range', 'range == stream_range(old(self).storage.doc, id.id)'),
+                   ('args_filters_are_a_prefix_of_the_objects_filters',
+                    # pointwise (no extensionality step needed at a call site); == `filters@ == that list's subrange(0, len)`
+                    'filters@.len() <= stream_filters(old(self).storage.doc, id.id).len()'
+                    ' && forall|i: int| 0 <= i < filters@.len() ==> filters@[i] == stream_filters(old(self).storage.doc, id.id)[i]')],
       'ensures': [FRAME, KEPT,
           ('answers_as_uncached_decode', 'same_answer(bytes_answer(r), decoded(%s, id, range, filters@))' % DOC)],
       'rewrites': [sig('(&self,', '(&mut self,'),
-          {'rule': 'R1', 'regex': r'\A\s*\{', 'replace': '{ let ghost args__ = %s;' % ARGS},
+          {'rule': 'R1', 'regex': r'\A\s*\{', 'replace': '{ let ghost args__ = %s; proof { assert(filters@ =~= stream_filters(self.storage.doc, id.id).subrange(0, filters@.len() as int)); }' % ARGS},
           # R8: get_or_compute -> lookup / compute in place / store (K and the compute expression verbatim);
           # R7: `.map_err(Arc::new)`, `.map_err(|e| e.into())`
           {'rule': 'R8', 'regex': r'self\.storage\.stream_cache\.get_or_compute\((.*?), \|\| (self\.storage\.decode\(.*?\))\.map_err\(Arc::new\)\)\s*\.map_err\(\|e\| e\.into\(\)\)',
@@ -185,6 +198,35 @@ UNIT = {
           {'rule': 'R7', 'find': 'file_range.clone()', 'replace': 'hoist_range_clone(file_range)'},
           {'rule': 'R1', 'find': 'resolve.get_data_or_decode(', 'replace': 'proof { lemma_whole_is_prefix(self.info.filters@); } resolve.get_data_or_decode('},
       ]},
+  # ---- object streams (object/stream.rs): every function of ObjectStream that reaches the stream cache. On the pinned tree all
+  # three go through Stream::data; a DIRECT call of resolve.get_data_or_decode(..) written into one of them is checked against
+  # the labelled preconditions above like any other call site.
+  'StreamInfo::deref': {'kind': 'fn', 'file': STM, 'container': r'^impl<I> Deref for StreamInfo<I>$', 'name': 'deref', 'props': PR,
+      'canary': False, 'ensures': [('deref_is_info', '*r == self.info')]},
+  'struct ObjStmInfo': {'kind': 'decl', 'file': STM, 'header': r'^pub struct ObjStmInfo$',
+      'rewrites': [{'rule': 'R2', 'find': 'pub extends: Option<Ref<Stream<()>>>,', 'replace': ''}]},   # not mentioned by any extracted fn
+  'struct ObjectStream': {'kind': 'decl', 'file': STM, 'header': r'^pub struct ObjectStream$', 'rewrites': PUB('offsets', '_id', 'inner')},
+  'ObjectStream::from_primitive': {'kind': 'fn', 'file': STM, 'container': r'^impl Object for ObjectStream$', 'name': 'from_primitive', 'props': PR,
+      'attrs': ['#[verifier::loop_isolation(false)]'],
+      'requires': ['old(resolve).wf()'],
+      'ensures': [RFRAME, RKEPT,
+          ('object_stream_describes_the_document', 'r matches Ok(os) ==> os.inner.describes(%s)' % RDOC)],
+      'rewrites': [
+          # R2: trait method emitted as inherent fn over the concrete resolver (as RSIG)
+          {'where': 'sig', 'rule': 'R2', 'regex': r'fn from_primitive\(p: Primitive, resolve: &impl Resolve\)',
+           'replace': 'pub fn from_primitive<B, OC: Cache<ObjVal, ObjOrigin>, SC: Cache<StrVal, StreamArgs>, L: Log>(p: Primitive, resolve: &mut StorageResolver<B, OC, SC, L>)'},
+          # R2: `Stream::from_primitive` (trait method of `impl Object for Stream<I>`) is an inherent env stub
+          {'rule': 'R4', 'regex': r'\bdebug!\([^;]*\);', 'replace': '', 'count': '*'},
+      ]},
+  'ObjectStream::get_object_slice': {'kind': 'fn', 'file': STM, 'container': r'^impl ObjectStream$', 'name': 'get_object_slice', 'props': PR,
+      'requires': ['old(resolve).wf()', 'self.inner.describes(old(resolve).storage.doc)'],
+      'ensures': [RFRAME, RKEPT],
+      'rewrites': [RSIG2]},
+  'ObjectStream::_data': {'kind': 'fn', 'file': STM, 'container': r'^impl ObjectStream$', 'name': '_data', 'props': PR,
+      'requires': ['old(resolve).wf()', 'self.inner.describes(old(resolve).storage.doc)'],
+      'ensures': [RFRAME, RKEPT,
+          ('answers_as_uncached_decode', 'self.inner.inner_data matches StreamData::Original(range, id) ==> same_answer(bytes_answer(r), decoded(%s, id, range, self.inner.info.filters@))' % RDOC)],
+      'rewrites': [RSIG]},
   'ImageXObject::raw_image_data': {'kind': 'fn', 'file': TYP, 'container': r'^impl ImageXObject$', 'name': 'raw_image_data', 'props': PR,
       'requires': ['old(resolve).wf()', 'self.inner.describes(old(resolve).storage.doc)'],
       'ensures': [RFRAME, RKEPT,
